@@ -419,6 +419,10 @@ func (cd *cmdDispatcher) prepare(cs *clientState, input respValue) (ctx *cmdCont
 func (cd *cmdDispatcher) dispatch(cs *clientState, input respValue) (output respValue) {
 	ctx, response := cd.prepare(cs, input)
 	if response != nil {
+		if _, refused := response.(respErrorString); refused && cs.cmdQueue != nil {
+			// refused inside MULTI (unknown command, wrong arguments): the transaction is spoilt
+			cs.cmdQueueFailed = true
+		}
 		output.data = response
 		return
 	}
